@@ -15,7 +15,8 @@ Variable cfg : config.
 
 Definition timer_due (s : state) : bool :=
   match ph s with
-  | PWriting _ _ u | PWaiting u => fire cfg u <=? now s
+  | PWriting _ _ u => (Nat.eqb (wpark s) 0 && (fire cfg u <=? now s)) || (fire cfg (wdl s) <=? now s)
+  | PWaiting u => fire cfg u <=? now s
   | PInFlight _ _ d => fire cfg d <=? now s
   | _ => false
   end.
